@@ -19,13 +19,26 @@ let variant_of = function
 let c4_of a b c d = { rxb = n_of_decimal a; txb = n_of_decimal b; rxp = n_of_decimal c; txp = n_of_decimal d }
 let show_c4 c = String.concat ":" [decimal_of_n c.rxb; decimal_of_n c.txb; decimal_of_n c.rxp; decimal_of_n c.txp]
 exception Bad
-let parse_snap t =
+let parse_ifs t =
   if t = "-" then None
   else if t = "e" then Some []
   else Some (List.map (fun it ->
       match String.split_on_char ':' it with
       | [i; a; b; c; d] -> (n_of_decimal i, c4_of a b c d)
       | _ -> raise Bad) (String.split_on_char '+' t))
+let parse_l2 t =
+  if t = "-" then None
+  else if t = "e" then Some []
+  else Some (List.map (fun it ->
+      match String.split_on_char ':' it with
+      | [i; b; p] -> (n_of_decimal i, (n_of_decimal b, n_of_decimal p))
+      | _ -> raise Bad) (String.split_on_char '+' t))
+(* <interface table>  or  <interface table>|<l2gw segment>   (no segment given = unavailable) *)
+let parse_snap t =
+  match String.split_on_char '|' t with
+  | [a] -> { ifs = parse_ifs a; l2 = None }
+  | [a; b] -> { ifs = parse_ifs a; l2 = parse_l2 b }
+  | _ -> raise Bad
 let is_uint s = s <> "" && String.length s <= 10 && (let ok = ref true in String.iter (fun ch -> if ch < '0' || ch > '9' then ok := false) s; !ok)
 let uint s = if is_uint s then int_of_string s else raise Bad
 let rec nat_list_of_mask m i k = if i >= k then [] else if m land (1 lsl i) <> 0 then nat_of_int i :: nat_list_of_mask m (i+1) k else nat_list_of_mask m (i+1) k
@@ -39,34 +52,69 @@ let dump_sess pre e = Printf.sprintf ",%s,x%s,L%s,P%s,B%s" pre (decimal_of_n e.i
 
 let run_case v line =
   match tokens line with
-  | "S" :: k :: rest ->
+  | ("S" | "Sr") :: k :: rest ->
     let k = uint k in
     let rec take n l acc = if n = 0 then (List.rev acc, l) else match l with x :: r -> take (n-1) r (x :: acc) | [] -> raise Bad in
     let (ss, ops) = take k rest [] in
     let bk = List.map (fun s -> match String.split_on_char ':' s with [_; b; _] -> n_of_int (uint b) | _ -> raise Bad) ss in
+    let tys = List.map (fun s -> match String.split_on_char ':' s with [_; _; t] -> t = "g" | _ -> raise Bad) ss in
+    let ann f i rest = if uint i >= k then raise Bad else
+        match rest with
+        | [x] -> f (nat_of_int (uint i)) (n_of_int (uint x)) N0
+        | [x; h] -> f (nat_of_int (uint i)) (n_of_int (uint x)) (if List.nth tys (uint i) then n_of_int (uint h) else (ignore (uint h); N0))
+        | _ -> raise Bad in
     let g = ref (List.map (fun _ -> sst0) ss) in
     let traces = Array.make k [] in      (* per session: reversed list of (local event, calls) *)
-    let groups = List.map (fun op ->
+    let racy = ref false in
+    let nops = List.length ops in
+    let step_one ev =
+      let r = gstep v bk tys !g ev in
+      g := List.map fst r;
+      List.iteri (fun j (_, o) -> match project bk (nat_of_int j) ev with
+          | Some le -> traces.(j) <- (le, o) :: traces.(j)
+          | None -> ()) r;
+      List.concat (List.mapi (fun j (_, o) -> List.map (fun x -> (j, show_out j x)) o) r) in
+    let groups = List.mapi (fun oi op ->
+        if !racy then raise Bad;
+        if String.length op > 2 && String.sub op 0 2 = "C/" then begin
+          (* concurrent group: the forced overlap makes every Released do its lookup-and-delete before any tick
+             passes the stats snapshot, so the schedule-independent outcome is "Released first, then the tick" *)
+          match String.split_on_char '/' op with
+          | _ :: sn :: ms when List.length ms >= 2 ->
+            let sn = parse_snap sn in
+            let ms = List.map (String.split_on_char ',') ms in
+            let nt = List.length (List.filter (fun m -> List.hd m = "T") ms) in
+            let has_ar = List.exists (fun m -> List.hd m = "A" || List.hd m = "R") ms in
+            List.iter (function
+                | ("A" | "R") :: i :: rest -> ignore (ann (fun _ _ _ -> ()) i rest)
+                | ["X"; i] -> if uint i >= k then raise Bad
+                | ["T"; b; m] -> ignore (uint b); ignore (uint m)
+                | _ -> raise Bad) ms;
+            if nt > 1 || (has_ar && (oi <> nops - 1 || nt > 0)) then raise Bad;
+            if has_ar then begin racy := true; "{ok}" end
+            else begin
+              let evs = List.filter_map (function ["X"; i] -> Some (GReleased (nat_of_int (uint i), sn)) | _ -> None) ms
+                        @ List.filter_map (function ["T"; b; m] -> Some (GTick (n_of_int (uint b), nat_list_of_mask (uint m) 0 k, sn)) | _ -> None) ms in
+              let toks = List.concat (List.map step_one evs) in
+              let toks = List.stable_sort compare toks in
+              "[" ^ String.concat " " (List.map snd toks) ^ "]"
+            end
+          | _ -> raise Bad
+        end else begin
         let ev = match String.split_on_char ',' op with
-          | ["A"; i; x] -> if uint i >= k then raise Bad; GActive (nat_of_int (uint i), n_of_int (uint x))
-          | ["R"; i; x] -> if uint i >= k then raise Bad; GRestored (nat_of_int (uint i), n_of_int (uint x))
+          | "A" :: i :: rest -> ann (fun j x h -> GActive (j, x, h)) i rest
+          | "R" :: i :: rest -> ann (fun j x h -> GRestored (j, x, h)) i rest
           | ["X"; i; sn] -> if uint i >= k then raise Bad; GReleased (nat_of_int (uint i), parse_snap sn)
           | ["T"; b; m; sn] -> GTick (n_of_int (uint b), nat_list_of_mask (uint m) 0 k, parse_snap sn)
           | ["B"] -> GRestart
           | ["P"; p] -> GPrune (p = "1")
           | _ -> raise Bad in
-        let r = gstep v bk !g ev in
-        g := List.map fst r;
-        List.iteri (fun j (_, o) -> match project bk (nat_of_int j) ev with
-            | Some le -> traces.(j) <- (le, o) :: traces.(j)
-            | None -> ()) r;
-        let toks = List.concat (List.mapi (fun j (_, o) -> List.map (show_out j) o) r) in
-        "[" ^ String.concat " " toks ^ "]") ops in
+        "[" ^ String.concat " " (List.map snd (step_one ev)) ^ "]" end) ops in
     let dump = List.mapi (fun j s ->
         let p = Printf.sprintf "s%d=b%d" j (if s.inb then 1 else 0) in
         let p = p ^ (match s.cache with
             | Some e -> Printf.sprintf ",c1,p%d" (if e.pending then 1 else 0) ^
-                        Printf.sprintf ",x%s,L%s,P%s,B%s" (decimal_of_n e.ifx) (show_c4 e.last) (show_c4 e.prior) (show_c4 e.base)
+                        Printf.sprintf ",x%s,h%s,L%s,P%s,B%s" (decimal_of_n e.ifx) (decimal_of_n e.hfx) (show_c4 e.last) (show_c4 e.prior) (show_c4 e.base)
             | None -> ",c0") in
         p ^ (match s.db with Some d -> dump_sess "d1" d | None -> ",d0")) !g in
     (* the property evaluated per session on the projected trace: bracketed / stops_ok / nondecreasing *)
@@ -75,14 +123,15 @@ let run_case v line =
         let t = List.rev traces.(j) in
         let evs = List.map fst t in
         let brk = bracketed false (outputs t) and stp = stops_ok false t and mono = nondecreasing c4z (outputs t) in
-        let wraps = lrun_wraps v sst0 evs and np = no_prune evs in
+        let gj = List.nth tys j in
+        let wraps = lrun_wraps v gj sst0 evs and np = no_prune evs in
         (* cross-check of the extracted code against what is proved for the repaired variant *)
-        let (_, t') = lrun v sst0 evs in
+        let (_, t') = lrun v gj sst0 evs in
         let bug = t' <> t ||
                   (v = variant_of "repaired" &&
                    ((not wraps && not (accepted t)) || not stp || (np && not wraps && not (brk && mono)))) in
         Printf.sprintf "v%d=%s%s%s%s" j (b brk) (b stp) (b mono) (if bug then "MODELBUG" else "")) ss in
-    String.concat " " groups ^ " ; " ^ String.concat " " dump ^ " ; " ^ String.concat " " verdicts
+    String.concat " " groups ^ " ; " ^ (if !racy then "racy" else String.concat " " dump) ^ " ; " ^ String.concat " " verdicts
   | _ -> raise Bad
 
 let () =
